@@ -180,6 +180,11 @@ async def t_native_cancel_through_cancelled_scope(p: dict) -> Any:
             await asyncio.sleep(0)
 
     t.cancel("native cancellation with a message")
+    if p["order"] == "native-then-scope-same-step":
+        # the scope's delivery pass finds the victim's wait already cancelled natively:
+        # it must neither cancel again nor book an uncancel() for a cancel() it did not issue
+        seen["scope"].cancel()
+
     try:
         await t
         seen["task"] = "finished normally"
@@ -213,6 +218,8 @@ def cases():  # noqa: ANN201
         # request arriving on top of an undelivered AnyIO one is indistinguishable)
         for children in (0, 1, 3):
             yield {"t": "native_through", "cfg": cfg, "order": "native-first",
+                   "children": children, "gap": False}  # fmt: skip
+            yield {"t": "native_through", "cfg": cfg, "order": "native-then-scope-same-step",
                    "children": children, "gap": False}  # fmt: skip
 
 
